@@ -36,7 +36,11 @@ Occs(b, t) ==
 DecodeClass(b, def) ==
   IF b = <<>> THEN "empty"
   ELSE LET fs == ParseAll(b) IN
-       IF \E i \in 1..Len(fs) : ~fs[i].ok \/ ~fs[i].canon THEN "may"
+       IF \E i \in 1..Len(fs) : ~fs[i].ok THEN "may"
+       ELSE IF \E i, j \in 1..Len(fs) : fs[i].fn = fs[j].fn /\ fs[i].wt # fs[j].wt /\ Declared(def, fs[i].fn) THEN "may"
+       \* well-formed, but a key or length prefix is not minimally encoded: the decode may be refused; if it succeeds, every
+       \* accessor has to answer as for any other well-formed message
+       ELSE IF \E i \in 1..Len(fs) : ~fs[i].canon THEN "wf"
        ELSE IF \E i, j \in 1..Len(fs) : fs[i].fn = fs[j].fn /\ fs[i].wt # fs[j].wt /\ Declared(def, fs[i].fn) THEN "may"
        ELSE "must"
 
